@@ -81,7 +81,7 @@ def _promax(
     Xrot = X @ L
 
     # Post-normalization based on Kaiser
-    Xrot = h[:, np.newaxis] * Xrot
+    Xrot = (h + eps)[:, np.newaxis] * Xrot
 
     rot_mat = rot_mat @ L
 
@@ -179,8 +179,8 @@ def _varimax(
     if compute and (abs(delta - delta_old) / delta) > rtol:
         raise RuntimeError("Rotation process did not converge.")
 
-    # De-normalize
-    X = h[:, np.newaxis] * X
+    # De-normalize (with the same stabilised communalities used for normalising)
+    X = (h + eps)[:, np.newaxis] * X
 
     # Rotate
     Xrot = X @ R
